@@ -385,10 +385,7 @@ brk('c02_args_index_without_len_guard', 'C02', FUN, '''    let items = if args.l
             match acc.partial_cmp(x) {
                 Some(Ordering::Less) => Ok(acc),''')
 brk('c02_contains_guard_removed', 'C02', FUN, '''                s.is_empty() || b.windows(s.len()).any(|w| w == s)''', '''                b.windows(s.len()).any(|w| w == s)''')
-brk('c02_string_index_plus_one', 'C02', OBJ, '''                                    match start
-                                        .checked_add(1)
-                                        .and_then(|end| str.get(start..end))
-                                    {''', '''                                    match str.get(start..start + 1) {''')
+brk('c02_string_index_plus_one', 'C02', OBJ, '''                                    match start.checked_add(1).and_then(|end| str.get(start..end)) {''', '''                                    match str.get(start..start + 1) {''')
 neu('c02_helper_extracted', 'C02', DURF, '''fn format_int(buf: &mut [u8], mut v: u128) -> usize {
     let mut w = buf.len();
     if v == 0 {
